@@ -107,6 +107,9 @@ func keys(m map[string]bool) []string {
 	return out
 }
 
+// hasCall: the expression passes through callee name (directly or inlined).
+func (a *Atoms) hasCall(name string) bool { return a.Calls[name] || a.Calls["inlined:"+name] }
+
 func (a *Atoms) String() string {
 	return fmt.Sprintf("fields=%v calls=%v lits=%v idents=%v", keys(a.Fields), keys(a.Calls), keys(a.Lits), keys(a.Idents))
 }
@@ -284,6 +287,11 @@ func (w *World) atomsInto(fi *FuncInfo, fd *funcDefs, e ast.Expr, a *Atoms, seen
 			}
 			for k := range sub.Lits {
 				a.Lits[k] = true
+			}
+			for k := range sub.Idents {
+				if strings.HasPrefix(k, "global:") || strings.HasPrefix(k, "const:") {
+					a.Idents[k] = true
+				}
 			}
 			a.Calls["inlined:"+name] = true
 			if se, ok := x.Fun.(*ast.SelectorExpr); ok && info.Selections[se] != nil {
